@@ -306,7 +306,8 @@ class Ctx:
         for k in self.known:
             print(k)
         seen = set()
-        for p, nf in self.violations:
+        # a violation with a concrete failing input is printed before the ones that only name a broken obligation
+        for p, nf in sorted(self.violations, key=lambda v: bool(v[1])):
             if p in seen or len(seen) >= 8:
                 continue
             seen.add(p)
